@@ -176,7 +176,13 @@ pub fn run_enc_check(ctx: &Ctx, check: &EncCheck) -> Stats {
                                             return;
                                         }
                                     }
-                                    st.sample(1, || h.to_json());
+                                    if st.samples.is_empty() && h.text.len() >= 2 && !h.cuts.is_empty() && !h.caps.is_empty() && h.text.iter().any(|c| *c >= 0x80) {
+                                        let o = sc.drv.run(&h);
+                                        let mut j = h.to_json();
+                                        j["transcript"] = o.transcript_json();
+                                        j["output_hex"] = serde_json::json!(fw::hex(&o.out));
+                                        st.samples.push(j);
+                                    }
                                 }
                             }
                         }
@@ -269,7 +275,14 @@ pub fn run_enc_check(ctx: &Ctx, check: &EncCheck) -> Stats {
             }
             match (check.verdict)(h, &mut sc, st, false) {
                 None => {
-                    st.sample(1, || h.to_json());
+                    if st.samples.is_empty() && h.text.iter().any(|c| *c >= 0x80) && !h.cuts.is_empty() {
+                        let o = sc.drv.run(h);
+                        let mut j = h.to_json();
+                        j["transcript"] = o.transcript_json();
+                        j["output_hex"] = serde_json::json!(fw::hex(&o.out));
+                        j["generated"] = serde_json::json!("random");
+                        st.samples.push(j);
+                    }
                     vec![]
                 }
                 Some((msg, sig)) => vec![Violation { msg: format!("{}: {}", describe(h), msg), sig, case: h.to_json() }],
